@@ -32,8 +32,18 @@ def finding_witness_specs(first_cid):
         k = (sc.s_shape, same)
         if k in want and want[k] is None:
             want[k] = sc
+    # F35-F38 (an S-only member that is not last, positional counterpart): one named and one tuple deriving struct, same-typed elements
+    want2 = {"named": None, "tuple": None}
+    for _ in range(4000):
+        if all(v is not None for v in want2.values()):
+            break
+        sc = rgen.gen_struct_case(wg, 0, dict(ghost_not_last=True, cell=wg.pick(["named->tuple_pos", "tuple->tuple"])))
+        if "positional_ghost_not_last" not in sc.flags or sc.existing_only or len({f.ty for f in sc.sf}) != 1:
+            continue
+        if want2[sc.s_shape] is None:
+            want2[sc.s_shape] = sc
     out = []
-    for sc in want.values():
+    for sc in list(want.values()) + list(want2.values()):
         if sc is not None:
             sc.cid = first_cid + len(out)
             out.append(sc)
@@ -50,7 +60,7 @@ def run(tier, prop="C01", opts=None):
     n, draws, shards = (160, 6, 4) if tier == "quick" else (3200, 24, 16)
     cases, specs = [], {}
     for i in range(n):
-        sc = rgen.gen_struct_case(g, i, dict(opts or {}, permuted=(i % 6 == 5)))
+        sc = rgen.gen_struct_case(g, i, dict(opts or {}, permuted=(i % 6 == 5), ghost_not_last=(i % 12 == 7)))
         code, di, df, kinds = rgen.render_case(sc, g, draws)
         sc.inputs = {"i": di, "f": df}
         cases.append(rt.Case(i, code, meta=sc, input_text=di))
